@@ -273,9 +273,15 @@ def gen_cases(rng, scale=1):
         if c['script'].get('ctor_raises') or not (c['script'].get('iters') or []): continue
         keys = rng.sample(HB_KEYS, rng.randint(1, 3))
         extra.append(dict(c, name=c['name'] + '+facets', hb_facets=keys))
+    # options of user-defined filters: arbitrary names, nested dicts - they become fields of the START event's facet; whatever they are called, START must go out
+    for c in rng.sample(cases, min(len(cases), 80 * scale)):
+        if c['script'].get('ctor_raises'): continue
+        extra.append(dict(c, name=c['name'] + '+cfg', cfg_extra=rng.choice(CFG_EXTRAS)))
     return cases + extra
 
 
+CFG_EXTRAS = [{'type': 'yolo'}, {'class': 3}, {'opts': {'a-b': 1}}, {'model': {'x.y': [1, 2]}}, {'9x': 1}, {'schemaURL': 'u'}, {'labels': {'first label': 'a'}}, {'plain': 1},
+              {'Threshold': 5, 'threshold': 6}, {'nested': {'deep': {'k': None}}}]
 HB_KEYS = ['frames_processed', 'frames.processed', 'x-y', '9lives', 'type', 'schemaURL', 'ok', 'Fps', 'a b', 'class', '_hidden', 'det_count_histogram']
 
 
